@@ -905,6 +905,14 @@ class PEval(Folder):
             g = "std::iter::Iterator::" + name.rsplit("::", 1)[1]
             if g in PMODELS:
                 name = g
+        if name and name not in PMODELS and name.endswith(" as std::clone::Clone>::clone") and not self.facts.fn(name) and args:
+            # Clone of a std value (an iterator adaptor, a range, a tuple of scalars ...): values are immutable in this model, only
+            # heap arrays need a copy of their own
+            v0 = _deref_all(self, st, args[0])
+            if v0 != TOP and v0[0] in ("iter", "adt", "tuple", "array", "int", "bool", "char", "float", "enum", "string", "str", "harr"):
+                self._store(st, fidx, t["dest"], _deep_clone(self, v0))
+                self._enter_block(st, t["target"])
+                return
         if name in PMODELS:
             try:
                 v = PMODELS[name](self, st, args, t)
